@@ -171,7 +171,7 @@ func checkC11(r *core.Run, p *core.Program) {
 	for cell, want := range wantCells {
 		parts := strings.SplitN(cell, ".", 2)
 		got := table[parts[0]][parts[1]]
-		r.Check("C11.chunk-accounting", cell, pos[cell], got == want, fmt.Sprintf("chunk data handler does `%s`; required `%s`", got, want))
+		r.Check("C11.chunk-accounting", cell, pos[cell], sameEffect(got, []string{want}), fmt.Sprintf("chunk data handler does `%s`; required `%s`", got, want))
 	}
 	for _, rt := range []string{"StringChunkRule", "ArrayChunkRule"} {
 		for ev, got := range table[rt] {
